@@ -267,7 +267,18 @@ func GenSpec(rg *rand.Rand, o GenOpts) (*tls.ClientHelloSpec, SpecDesc) {
 			}
 		}
 		if maybe(20) && !o.QUIC {
-			add("ech_grease", tls.BoringGREASEECH())
+			if maybe(60) {
+				add("ech_grease", tls.BoringGREASEECH())
+			} else {
+				// a GREASE ECH extension shaped after another KEM: encapsulated keys of
+				// X25519 (32), X448 (56), P-256 (65), P-384 (97), P-521 (133) size
+				n := []int{32, 56, 65, 97, 133}[rg.Intn(5)]
+				add(fmt.Sprintf("ech_grease_enc%d", n), &tls.GREASEEncryptedClientHelloExtension{
+					CandidateCipherSuites: []tls.HPKESymmetricCipherSuite{{KdfId: 1, AeadId: []uint16{1, 2, 3}[rg.Intn(3)]}},
+					CandidatePayloadLens:  []uint16{[]uint16{128, 160, 192, 224}[rg.Intn(4)]},
+					EncapsulatedKey:       randBytes(rg, n),
+				})
+			}
 			d.HasECH = true
 		}
 		if maybe(5) && !o.ForHandshake {
@@ -480,7 +491,7 @@ func ForeignHello(rg *rand.Rand, sni string) ([]byte, []string) {
 			body := []byte{0}
 			body = append(body, u16s(0x0001, []uint16{1, 2, 3}[rg.Intn(3)])...)
 			body = append(body, byte(rg.Intn(256)))
-			body = append(body, vec16(randBytes(rg, 32))...)
+			body = append(body, vec16(randBytes(rg, []int{32, 32, 56, 65, 97, 133}[rg.Intn(6)]))...)
 			body = append(body, vec16(randBytes(rg, pl))...)
 			add(fmt.Sprintf("ech_outer_pl%d", pl), wire.ExtECH, body)
 		}
@@ -513,7 +524,13 @@ func ForeignHello(rg *rand.Rand, sni string) ([]byte, []string) {
 	body = append(body, randBytes(rg, 32)...)
 	body = append(body, vec8(randBytes(rg, 32))...)
 	body = append(body, vec16(u16s(suites...))...)
-	body = append(body, vec8([]byte{0})...)
+	comp := []byte{0}
+	if !tls13 && maybe(25) {
+		// a TLS <= 1.2 stack that still offers DEFLATE (RFC 3749) next to null
+		comp = [][]byte{{1, 0}, {0, 1}, {64, 1, 0}}[rg.Intn(3)]
+		kinds = append(kinds, "compression_deflate")
+	}
+	body = append(body, vec8(comp)...)
 	body = append(body, vec16(exts)...)
 	msg := append([]byte{1, byte(len(body) >> 16), byte(len(body) >> 8), byte(len(body))}, body...)
 	return msg, kinds
@@ -542,4 +559,21 @@ func longName(n int) string {
 		s = s[:n]
 	}
 	return strings.TrimRight(s, ".")
+}
+
+// boundaryNames: valid DNS host names at the size limits of RFC 1035 (63-octet labels, 253
+// octets in total) and with the less common characters a server name may contain.
+func boundaryNames() []string {
+	l63 := strings.Repeat("a", 63)
+	return []string{
+		l63 + ".test",
+		"x." + strings.Repeat("b", 63) + ".example.test",
+		strings.Repeat("c", 62) + ".test",
+		l63 + "." + strings.Repeat("d", 63) + "." + strings.Repeat("e", 63) + "." + strings.Repeat("f", 61), // 253 octets
+		"a-b.c--d.test",
+		"xn--nxasmq6b.xn--p1ai",
+		"_dmarc.example.test",
+		"1.2.3.test",
+		"EXAMPLE.Test",
+	}
 }
